@@ -5,7 +5,8 @@
 use std::collections::{BTreeMap, BTreeSet, HashMap};
 use std::panic::{catch_unwind, AssertUnwindSafe};
 use std::path::PathBuf;
-use std::sync::{Arc, Condvar, Mutex};
+use std::sync::Arc;
+use teos::vsync::{Condvar, Mutex};
 
 use bitcoin::block::Block;
 use bitcoin::hashes::{ripemd160, Hash};
